@@ -98,6 +98,9 @@ func (s *segment) removeGTE(i uint64) error {
 	if n < s.n {
 		s.setOffset(n, 0)
 		s.n, s.size, s.synced = n, s.offset(n+1), -1
+		if verif {
+			verifPoint("removeGTE.header", s.file.Name())
+		}
 	}
 	return s.sync()
 }
@@ -111,11 +114,20 @@ func (s *segment) sync() error {
 		if err := s.file.Sync(); err != nil {
 			return err
 		}
+		if verif {
+			verifPoint("sync.data", s.file.Name())
+		}
 		s.setOffset(s.n, 0)
+		if verif {
+			verifPoint("sync.header", s.file.Name())
+		}
 		if err := s.file.Sync(); err != nil {
 			return err
 		}
 		s.synced = s.n
+		if verif {
+			verifPoint("sync.done", s.file.Name())
+		}
 	}
 	return nil
 }
